@@ -572,12 +572,13 @@ static void gen_fmt(Gen &g) {
                     }
     }
     // ---- 1..3 fields in all orders with 1..3 arguments, literals (incl. multi-byte text cut by fields) between
-    long nmulti = thorough ? 600000 : 24000;
+    long nmulti = thorough ? 360000 : 24000;
     for (long r = SL; r < nmulti; r += NS) {
         Rng rng(opt.seed * 0x9E3779B97F4A7C15ULL + (uint64_t)r * 2654435761ULL + 1799);
-        int nargs = 1 + (int)rng.below(3);
-        std::vector<std::string> args; for (int i = 0; i < nargs; ++i) args.push_back(random_arg(rng, true));
         int nf = 1 + (int)rng.below(3);
+        int nargs = 1 + (int)rng.below(3);
+        if (nargs < nf && !rng.chance(1, 16)) nargs = nf;      // mostly enough arguments for the sequential fields
+        std::vector<std::string> args; for (int i = 0; i < nargs; ++i) args.push_back(random_arg(rng, true));
         std::string s = random_literal(rng);
         for (int i = 0; i < nf; ++i) {
             FieldParts f;
@@ -599,7 +600,7 @@ static void gen_fmt(Gen &g) {
         g.put(s, false, args);
     }
     // ---- grammar-directed random format strings (many are rejected: every sink must reject them alike)
-    long nrand = thorough ? 200000 : 8000;
+    long nrand = thorough ? 100000 : 8000;
     for (long r = SL; r < nrand; r += NS) {
         Rng rng(opt.seed * 0x9E3779B97F4A7C15ULL + (uint64_t)r * 2654435761ULL + 17);
         int nargs = (int)rng.below(4);
